@@ -49,3 +49,43 @@ void ctl_install(struct ctl_strm *a, struct ctl_strm *b)
 	a->base.get_buffered_data = ctl_get_good;
 	b->base.get_buffered_data = ctl_get_bad;
 }
+
+/* ---- K5-optnull ---- */
+#include <string.h>
+#include <stdlib.h>
+typedef struct options_t { const char *infile; char *packdir; int flags; } options_t;
+void ctl_opt_parse(options_t *opt);
+size_t ctl_opt_len(const char *base);
+size_t ctl_opt_bad(const options_t *opt);
+size_t ctl_opt_good(const options_t *opt);
+size_t ctl_opt_tied(const options_t *opt);
+
+void ctl_opt_parse(options_t *opt)
+{
+	if (opt->infile == NULL && opt->packdir == NULL)
+		exit(1);
+}
+
+size_t ctl_opt_len(const char *base)
+{
+	return strlen(base);
+}
+
+size_t ctl_opt_bad(const options_t *opt)
+{
+	return ctl_opt_len(opt->packdir);		/* NULL when only infile was given */
+}
+
+size_t ctl_opt_good(const options_t *opt)
+{
+	if (opt->packdir == NULL)
+		return 0;
+	return ctl_opt_len(opt->packdir);
+}
+
+size_t ctl_opt_tied(const options_t *opt)
+{
+	if (opt->infile == NULL)
+		return ctl_opt_len(opt->packdir);	/* the parser rejected both being NULL */
+	return 0;
+}
